@@ -83,4 +83,16 @@ PROPS = {
         assumptions=["z3 sound", "PyVC encoding (DESIGN 2.2)", "E1 (see C02)", "A-MH: contracts of MH.keys/get_sequences/set_sequences/remove", "writer exclusivity across awaits"],
         not_decided="announcement to every selected session (C01), mtime granularity, inactive-mailbox checks in user_server",
     ),
+    "C20": dict(
+        design_ref="DESIGN.md 7 C20",
+        technique="contract-based deductive verification (PyVC + z3) of POP3CommandHandler methods (frames, DELE/RSET/QUIT, RETR framing as a string equation) on top of the verified Mailbox.expunge contract; bounded oracles for dot_stuff and real sessions",
+        category="other",
+        text="For all handler states satisfying the session invariant: _valid_msg_num only yields numbers of the snapshot that are not marked; DELE only adds one such number to the marks and RSET empties them, "
+             "neither touching the snapshot nor the mailbox (frame obligations); QUIT hands Mailbox.expunge exactly the snapshot UIDs of the marked numbers, so - by expunge's proved contract - exactly the marked messages "
+             "that still exist are removed and nothing else; RETR's reply is proved equal to '+OK <octets of the rendering>' + the dot-stuffed rendering + the terminator line (the repaired defect F42 sent two extra octets).",
+        note="Partial: STAT/LIST totals, TOP and UIDL multi-line bodies are checked for frame only; dot_stuff itself is bounded (exhaustive to length 8); 'RETR n returns the message UIDL n named' across IMAP expunge+pack "
+             "(DESIGN F43) is not decided. Assumed contracts: msg_as_bytes/get_msg_size share one deterministic renderer ending in CRLF (A-EMAIL, C16), Mailbox.get_msg, ClientProxy.push.",
+        assumptions=["z3 sound", "PyVC encoding (DESIGN 2.2; str(int) and str.join as named functions)", "A-EMAIL renderer contract", "Mailbox.expunge contract (proved under C05)", "Inv(Mailbox) at command boundaries"],
+        not_decided="F43 (messages addressed by MH key rather than UID across pack), POP3 QUIT bypassing the admission queue (C10)",
+    ),
 }
